@@ -4,10 +4,12 @@ import (
 	"encoding/json"
 	"fmt"
 	"os"
+	"os/exec"
 	"path/filepath"
 	"runtime/debug"
 	"sort"
 	"strings"
+	"time"
 )
 
 type oracleFn func(raw json.RawMessage) (*Verdict, error)
@@ -50,6 +52,7 @@ type replayDoc struct {
 	Verdict  *Verdict        `json:"verdict,omitempty"`
 	Case     json.RawMessage `json:"case"`
 	Note     string          `json:"note,omitempty"`
+	Isolate  bool            `json:"isolate,omitempty"` // run in a child process (hangs, fatal errors)
 }
 
 func loadReplay(path string) (*replayDoc, error) {
@@ -87,16 +90,40 @@ func (r *Rec) replayOne(path string) int {
 		fmt.Printf("INFRA: %v\n", err)
 		return 2
 	}
-	v, err := runDoc(d)
+	rel, _ := filepath.Rel(r.Root, path)
+	type res struct {
+		v   *Verdict
+		err error
+	}
+	ch := make(chan res, 1)
+	go func() { v, err := runDoc(d); ch <- res{v, err} }()
+	budget := time.Duration(envInt("VK_REPLAY_TIMEOUT", 200)) * time.Second
+	var v *Verdict
+	select {
+	case x := <-ch:
+		v, err = x.v, x.err
+	case <-time.After(budget):
+		fmt.Printf("VERDICT-JSON {\"class\":\"hang\",\"detail\":\"no answer within %v when run alone\"}\n", budget)
+		if f := r.KnownClass("hang"); f != nil {
+			fmt.Printf("KNOWN-FINDING: property=%s %s [%s]\n", r.ID, f.What, f.ID)
+			return 0
+		}
+		fmt.Printf("VIOLATION property=%s replay=%s\n", r.ID, rel)
+		fmt.Printf("  class=hang detail=no answer within %v when run alone\n", budget)
+		return 1
+	}
 	if err != nil {
 		fmt.Printf("INFRA: %v\n", err)
 		return 2
 	}
 	if v == nil {
+		fmt.Printf("VERDICT-JSON null\n")
 		fmt.Printf("REPLAY property=%s file=%s: property holds on this input\n", r.ID, path)
 		return 0
 	}
-	rel, _ := filepath.Rel(r.Root, path)
+	if js, err := json.Marshal(v); err == nil {
+		fmt.Printf("VERDICT-JSON %s\n", js)
+	}
 	if f := r.KnownClass(v.Class); f != nil {
 		fmt.Printf("KNOWN-FINDING: property=%s %s [%s]\n", r.ID, f.What, f.ID)
 		fmt.Printf("  class=%s detail=%s\n", v.Class, oneLine(v.Detail, 600))
@@ -131,7 +158,12 @@ func (r *Rec) regress() {
 			r.Infra("%v", err)
 			continue
 		}
-		v, err := runDoc(d)
+		var v *Verdict
+		if d.Isolate {
+			v, err = isolated(path, 30)
+		} else {
+			v, err = runDoc(d)
+		}
 		if err != nil {
 			r.Infra("%s: %v", rel, err)
 			continue
@@ -159,4 +191,38 @@ func (r *Rec) regress() {
 	r.mu.Lock()
 	r.extra["regress_files_replayed"] = int64(n)
 	r.mu.Unlock()
+}
+
+// isolated runs one replay file in a child process of the same test binary and maps the outcome
+// to a verdict: VERDICT-JSON line → that verdict; death by fatal error → class "crash";
+// watchdog → class "hang".
+func isolated(path string, budgetSec int) (*Verdict, error) {
+	cmd := exec.Command(os.Args[0], "-test.run", "^$")
+	cmd.Env = append(os.Environ(), "VK_REPLAY="+path, fmt.Sprintf("VK_REPLAY_TIMEOUT=%d", budgetSec), "VK_CURRENT=")
+	out, runErr := cmd.CombinedOutput()
+	for _, line := range strings.Split(string(out), "\n") {
+		if strings.HasPrefix(line, "VERDICT-JSON ") {
+			rest := strings.TrimPrefix(line, "VERDICT-JSON ")
+			if rest == "null" {
+				return nil, nil
+			}
+			var v Verdict
+			if err := json.Unmarshal([]byte(rest), &v); err != nil {
+				return nil, err
+			}
+			return &v, nil
+		}
+	}
+	if runErr != nil {
+		tail := string(out)
+		if len(tail) > 1500 {
+			tail = tail[:1500]
+		}
+		cls := "crash"
+		if strings.Contains(tail, "stack overflow") || strings.Contains(tail, "goroutine stack exceeds") {
+			cls = "stack-overflow"
+		}
+		return Bad(cls, "child process died: %v\n%s", runErr, tail), nil
+	}
+	return nil, fmt.Errorf("child gave no verdict")
 }
